@@ -58,6 +58,10 @@ def gen_case(tape, tier):
                                           "pre_same_process": False, "big": True},
                 "ops": [{"op": "outputs", "names": ["o0"], "mutate": False}, {"op": "exit"}, {"op": "outputs", "names": ["o0"], "mutate": False}]}
     w = gen_workload(tape)
+    if tape.coin(0.3, "descending-inputs"):
+        for d in w["inputs"].values():
+            if d["kind"] in ("list", "ndarray") and not d.get("elements"):
+                d["descending"] = True
     storage = C.gen_storage(tape, w)
     ex = tape.pick(["sequential", "sequential", "single"], "exec")
     executor = {"kind": "sequential"}
@@ -306,6 +310,7 @@ def _run_case(case, exec_seed=None, exec_tape=None):
                 try:
                     ds = load_xarray_dataset(run_folder=folder, load_intermediate=inter)
                     truth["xr"][inter] = ("ok", _ds_values(ds, w))
+                    _check_coords(ds, w, truth["inputs"], V, probes, "same-process")
                 except Exception as e:  # noqa: BLE001
                     truth["xr"][inter] = ("raised", type(e).__name__)
 
@@ -389,6 +394,7 @@ def _run_case(case, exec_seed=None, exec_tape=None):
                     if v != truth["R"][n]:
                         V("xarray", f"value-differs:{where}", {"name": n, "got": repr(v)[:300], "expected": repr(truth["R"][n])[:300]})
                         return
+                _check_coords(ds, w, truth["inputs"], V, probes, where)
 
         def new_process():
             sim = C.new_sim(tape, root, preempt=cfg["preempt"], step_cap=2_000_000 if cfg.get("big") else 20000)
@@ -580,6 +586,31 @@ def _ds_values(ds, w):
             except Exception as e:  # noqa: BLE001
                 vals[n] = f"<unreadable:{type(e).__name__}>"
     return vals
+
+
+def _check_coords(ds, w, given, V, probes, where):
+    """The inputs the dataset carries as coordinates are the inputs the run was given, element by element in the given
+    order (1-D plain root inputs; zipped ones are levels of one combined index named 'a:b')."""
+    for cname in list(ds.coords):
+        parts = str(cname).split(":")
+        if not all(p in w["inputs"] and w["inputs"][p]["kind"] in ("list", "ndarray") and len(w["inputs"][p]["axes"]) == 1
+                   and not w["inputs"][p].get("elements") and p in given for p in parts):
+            continue
+        try:
+            idx = ds.coords[cname].to_index()
+            got = {p: canon(list(idx.get_level_values(p)) if len(parts) > 1 else list(idx)) for p in parts}
+        except Exception as e:  # noqa: BLE001
+            V("xarray", f"coordinate-unreadable:{where}", {"coord": str(cname), "exc": repr(e)[:200]})
+            return
+        for p in parts:
+            probes["xarray_input_coordinate_compared"] = probes.get("xarray_input_coordinate_compared", 0) + 1
+            if len(parts) > 1 and w["inputs"][p].get("descending"):
+                probes["xarray_zipped_descending_coordinate"] = probes.get("xarray_zipped_descending_coordinate", 0) + 1
+            exp = canon(list(given[p]) if not isinstance(given[p], tuple) else given[p])
+            if got[p] != exp:
+                V("xarray", f"input-coordinate-differs:{where}", {"input": p, "coord": str(cname), "got": repr(got[p])[:200],
+                                                                   "given": repr(exp)[:200]})
+                return
 
 
 def _nan_token(v):
